@@ -1,65 +1,371 @@
-(* ConcIR.v — the tiny IR in which harness/cmd/xlate_conc lists the shared-memory operations
-   of a Go function together with the branch structure between them.
+(* ConcIR.v — the IR in which harness/cmd/xlate_conc re-states a Go function that works on
+   shared memory with sync/atomic operations, and its generic small-step denotation.
 
-   A site (Some n) marks a statement/condition before which the instrumented real code calls
-   vsched.Yield n: one site = one micro-step of the machines of Base/Conc.v.  Conditions,
-   returned expressions and the text of operation statements are kept as strings with local
-   identifiers renamed (receiver = recv, then v0, v1, .. in order of first binding).        *)
-From Coq Require Import List String.
+   The translator maps the Go AST one to one: expressions (locals renamed v0,v1,.. in order of
+   first binding; the receiver's atomic fields only occur as the target of an atomic method
+   call), definitions, assignments, close, if/else, `for { }`, return.  Anything else becomes
+   [EUnknown]/[SOther], which denote "stuck".  A statement (or condition) containing a
+   shared-memory operation carries [Some site]: the instrumented real code calls
+   vsched.Yield site right before it.
+
+   Denotation: a running call is an environment of locals and a continuation (a list of
+   statements to run, loop markers, scope-end markers).  [run] executes from the statement a
+   thread is parked at up to (excluding) the next statement that carries a site, or to the
+   return: ONE micro-step = ONE shared-memory operation plus the local computation that
+   follows it - exactly what runs between two yields of the instrumented code.
+   The shared memory is abstract: [mem Sh] says what an atomic operation on a named field, a
+   close and a global do (the component's model of its memory).
+
+   Values: integers, booleans, channels, pointers to a channel variable, pointers to a
+   published immutable struct (identity + fields) and to a struct not yet published.
+   A channel made by make(chan) has no name until it is published or closed ([VChan None]):
+   an unpublished channel is unobservable, so it is named when it first escapes.            *)
+From Coq Require Import List String ZArith Bool Arith.
 Import ListNotations.
+Local Open Scope string_scope.
+Local Open Scope list_scope.
 
 Inductive aop :=
 | ALoad | AStore | ASwap | ACAS | AAdd | AAnd | AOr
 | ALock | AUnlock | ARLock | ARUnlock | ATryLock.
 
-Inductive op :=
-| OAtomic (a : aop) (field : string)
-| OClose
-| OMake
-| ORecv
-| OSend
-| OCallM (method : string).
+Inductive binop := BAdd | BSub | BEq | BNe | BLt | BLe | BGt | BGe | BAnd | BOr.
+
+Inductive expr :=
+| EVar (x : string)
+| EInt (z : Z)
+| EGlobal (g : string)
+| EAddr (e : expr)
+| EDeref (e : expr)
+| EField (e : expr) (f : string)
+| EBin (o : binop) (a b : expr)
+| ENot (e : expr)
+| EConv (e : expr)                                   (* int(x), int64(x): identity on Z *)
+| ENew (ty : string) (fields : list (string * expr)) (* &T{f: e, ..} *)
+| EMake                                              (* make(chan ..) *)
+| EAtomic (a : aop) (field : string) (args : list expr)
+| EUnknown (text : string).
+
+Inductive lhs := LVar (x : string) | LField (x f : string).
 
 Inductive stmt :=
-| SOps (site : option nat) (ops : list op) (text : string)
-| SIf (site : option nat) (ops : list op) (cond : string) (th el : list stmt)
-| SLoop (site : option nat) (ops : list op) (cond : string) (body : list stmt)
-| SSwitch (site : option nat) (ops : list op) (tag : string) (cases : list (string * list stmt))
-| SSelect (site : option nat) (cases : list (list op * string * list stmt))
-| SReturn (site : option nat) (ops : list op) (results : string)
-| SDefer (ops : list op) (text : string)
-| SBreak
-| SContinue
-| SMissing.
+| SDefine (site : option nat) (x : string) (e : expr)
+| SAssign (site : option nat) (l : lhs) (e : expr)
+| SClose (site : option nat) (e : expr)
+| SExpr (site : option nat) (e : expr)
+| SIf (site : option nat) (c : expr) (th el : list stmt)
+| SLoop (body : list stmt)
+| SReturn (site : option nat) (e : expr)
+| SOther (site : option nat) (text : string).
 
-Definition func := (string * list stmt)%type.
+Record func := Func { f_name : string; f_params : list string; f_body : list stmt }.
 
-(* all sites of a statement list, in source order *)
+Definition prog := list func.
+
+Fixpoint find_func (name : string) (p : prog) : option func :=
+  match p with
+  | [] => None
+  | f :: r => if String.eqb (f_name f) name then Some f else find_func name r
+  end.
+
+(* ---------------------------------------------------------------- sites *)
+Definition stmt_site (s : stmt) : option nat :=
+  match s with
+  | SDefine o _ _ | SAssign o _ _ | SClose o _ | SExpr o _ | SIf o _ _ _ | SReturn o _
+  | SOther o _ => o
+  | SLoop _ => None
+  end.
+
 Definition osite (o : option nat) : list nat := match o with Some n => [n] | None => [] end.
-Fixpoint sites (s : stmt) : list nat :=
-  match s with
-  | SOps o _ _ => osite o
-  | SIf o _ _ th el => osite o ++ flat_map sites th ++ flat_map sites el
-  | SLoop o _ _ b => osite o ++ flat_map sites b
-  | SSwitch o _ _ cs => osite o ++ flat_map (fun c => flat_map sites (snd c)) cs
-  | SSelect o cs => osite o ++ flat_map (fun c => flat_map sites (snd c)) cs
-  | SReturn o _ _ => osite o
-  | _ => []
-  end.
-Definition func_sites (f : func) : list nat := flat_map sites (snd f).
 
-(* (site, operations at that site) in source order: which shared-memory operation each
-   micro-step of a machine stands for *)
-Definition osite_ops (o : option nat) (ops : list op) : list (nat * list op) :=
-  match o with Some n => [(n, ops)] | None => [] end.
-Fixpoint site_ops (s : stmt) : list (nat * list op) :=
-  match s with
-  | SOps o ops _ => osite_ops o ops
-  | SIf o ops _ th el => osite_ops o ops ++ flat_map site_ops th ++ flat_map site_ops el
-  | SLoop o ops _ b => osite_ops o ops ++ flat_map site_ops b
-  | SSwitch o ops _ cs => osite_ops o ops ++ flat_map (fun c => flat_map site_ops (snd c)) cs
-  | SSelect o cs => osite_ops o [] ++ flat_map (fun c => flat_map site_ops (snd c)) cs
-  | SReturn o ops _ => osite_ops o ops
+Fixpoint atomics (e : expr) : list (aop * string) :=
+  match e with
+  | EAddr a | EDeref a | EField a _ | ENot a | EConv a => atomics a
+  | EBin _ a b => atomics a ++ atomics b
+  | ENew _ fs => flat_map (fun p => atomics (snd p)) fs
+  | EAtomic a f args => flat_map atomics args ++ [(a, f)]
   | _ => []
   end.
-Definition func_site_ops (f : func) : list (nat * list op) := flat_map site_ops (snd f).
+
+(* (site, kind of operation) in source order *)
+Inductive opkind := KAtomic (a : aop) (field : string) | KClose | KOther.
+
+Fixpoint site_ops (s : stmt) : list (nat * list opkind) :=
+  let at_site o ks := match o with Some n => [(n, ks)] | None => [] end in
+  let ks e := map (fun p => KAtomic (fst p) (snd p)) (atomics e) in
+  match s with
+  | SDefine o _ e | SAssign o _ e | SExpr o e | SReturn o e => at_site o (ks e)
+  | SClose o e => at_site o (ks e ++ [KClose])
+  | SIf o c th el => at_site o (ks c) ++ flat_map site_ops th ++ flat_map site_ops el
+  | SLoop b => flat_map site_ops b
+  | SOther o _ => at_site o [KOther]
+  end.
+Definition func_site_ops (f : func) : list (nat * list opkind) := flat_map site_ops (f_body f).
+
+(* ---------------------------------------------------------------- values and memory *)
+Inductive value :=
+| VInt (z : Z)
+| VBool (b : bool)
+| VChan (c : option nat)
+| VPtrChan (c : option nat)
+| VRef (id : nat) (fields : list (string * value))
+| VNew (fields : list (string * value))
+| VUnit.
+
+Definition env := list (string * value).
+
+Fixpoint lookup {A} (x : string) (l : list (string * A)) : option A :=
+  match l with
+  | [] => None
+  | (y, v) :: r => if String.eqb x y then Some v else lookup x r
+  end.
+
+Fixpoint update {A} (x : string) (v : A) (l : list (string * A)) : option (list (string * A)) :=
+  match l with
+  | [] => None
+  | (y, w) :: r =>
+      if String.eqb x y then Some ((y, v) :: r)
+      else match update x v r with Some r' => Some ((y, w) :: r') | None => None end
+  end.
+
+Record mem (Sh : Type) := Mem {
+  m_atomic : aop -> string -> list value -> Sh -> option (Sh * value);
+  m_close : option nat -> Sh -> option (Sh * bool);      (* false = panic *)
+  m_global : string -> option value
+}.
+Arguments m_atomic {Sh}.
+Arguments m_close {Sh}.
+Arguments m_global {Sh}.
+
+Definition chan_eq (a b : option nat) : option bool :=
+  match a, b with
+  | Some x, Some y => Some (Nat.eqb x y)
+  | None, Some _ | Some _, None => Some false     (* a fresh channel differs from any named one *)
+  | None, None => None
+  end.
+
+Definition val_eq (a b : value) : option bool :=
+  match a, b with
+  | VInt x, VInt y => Some (Z.eqb x y)
+  | VBool x, VBool y => Some (Bool.eqb x y)
+  | VChan x, VChan y => chan_eq x y
+  | VPtrChan x, VPtrChan y => chan_eq x y
+  | VRef x _, VRef y _ => Some (Nat.eqb x y)
+  | _, _ => None
+  end.
+
+Definition binop_val (o : binop) (a b : value) : option value :=
+  match o with
+  | BEq => option_map VBool (val_eq a b)
+  | BNe => option_map (fun x => VBool (negb x)) (val_eq a b)
+  | _ =>
+      match a, b with
+      | VInt x, VInt y =>
+          match o with
+          | BAdd => Some (VInt (x + y)) | BSub => Some (VInt (x - y))
+          | BLt => Some (VBool (x <? y)) | BLe => Some (VBool (x <=? y))
+          | BGt => Some (VBool (y <? x)) | BGe => Some (VBool (y <=? x))
+          | _ => None
+          end%Z
+      | _, _ => None
+      end
+  end.
+
+Section Denote.
+  Variable Sh : Type.
+  Variable M : mem Sh.
+
+  Fixpoint eval (en : env) (e : expr) (s : Sh) : option (Sh * value) :=
+    match e with
+    | EVar x => option_map (fun v => (s, v)) (lookup x en)
+    | EInt z => Some (s, VInt z)
+    | EGlobal g => option_map (fun v => (s, v)) (m_global M g)
+    | EAddr a =>
+        match eval en a s with Some (s', VChan c) => Some (s', VPtrChan c) | _ => None end
+    | EDeref a =>
+        match eval en a s with Some (s', VPtrChan c) => Some (s', VChan c) | _ => None end
+    | EField a f =>
+        match eval en a s with
+        | Some (s', VRef _ fs) | Some (s', VNew fs) => option_map (fun v => (s', v)) (lookup f fs)
+        | _ => None
+        end
+    | EBin BAnd a b =>
+        match eval en a s with
+        | Some (s', VBool false) => Some (s', VBool false)
+        | Some (s', VBool true) =>
+            match eval en b s' with Some (s'', VBool y) => Some (s'', VBool y) | _ => None end
+        | _ => None
+        end
+    | EBin BOr a b =>
+        match eval en a s with
+        | Some (s', VBool true) => Some (s', VBool true)
+        | Some (s', VBool false) =>
+            match eval en b s' with Some (s'', VBool y) => Some (s'', VBool y) | _ => None end
+        | _ => None
+        end
+    | EBin o a b =>
+        match eval en a s with
+        | Some (s', va) =>
+            match eval en b s' with
+            | Some (s'', vb) => option_map (fun v => (s'', v)) (binop_val o va vb)
+            | None => None
+            end
+        | None => None
+        end
+    | ENot a =>
+        match eval en a s with Some (s', VBool x) => Some (s', VBool (negb x)) | _ => None end
+    | EConv a =>
+        match eval en a s with Some (s', VInt z) => Some (s', VInt z) | _ => None end
+    | ENew _ fs =>
+        let fix fields (l : list (string * expr)) (s : Sh) : option (Sh * list (string * value)) :=
+          match l with
+          | [] => Some (s, [])
+          | (f, a) :: r =>
+              match eval en a s with
+              | Some (s', v) =>
+                  match fields r s' with
+                  | Some (s'', vs) => Some (s'', (f, v) :: vs)
+                  | None => None
+                  end
+              | None => None
+              end
+          end in
+        match fields fs s with Some (s', vs) => Some (s', VNew vs) | None => None end
+    | EMake => Some (s, VChan None)
+    | EAtomic a f args =>
+        let fix evals (l : list expr) (s : Sh) : option (Sh * list value) :=
+          match l with
+          | [] => Some (s, [])
+          | x :: r =>
+              match eval en x s with
+              | Some (s', v) =>
+                  match evals r s' with
+                  | Some (s'', vs) => Some (s'', v :: vs)
+                  | None => None
+                  end
+              | None => None
+              end
+          end in
+        match evals args s with
+        | Some (s', vs) => m_atomic M a f vs s'
+        | None => None
+        end
+    | EUnknown _ => None
+    end.
+
+  (* continuation items *)
+  Inductive item := IStmt (s : stmt) | ILoop (body : list stmt) | IPop (n : nat).
+
+  Record dloc := DLoc { d_env : env; d_k : list item }.
+
+  Inductive outcome := OPark (l : dloc) | ORet (v : value) | OPanic | OStuck.
+
+  Definition has_site (s : stmt) : bool :=
+    match stmt_site s with Some _ => true | None => false end.
+
+  Definition block (b : list stmt) (en : env) (k : list item) : list item :=
+    map IStmt b ++ IPop (List.length en) :: k.
+
+  Definition set_field (x f : string) (v : value) (en : env) : option env :=
+    match lookup x en with
+    | Some (VNew fs) =>
+        match update f v fs with
+        | Some fs' => update x (VNew fs') en
+        | None => None
+        end
+    | _ => None
+    end.
+
+  (* [first] = the statement at the head is the one the thread is parked at: run it *)
+  Fixpoint run (fuel : nat) (first : bool) (en : env) (k : list item) (s : Sh)
+    : Sh * outcome :=
+    match fuel with
+    | O => (s, OStuck)
+    | S fu =>
+        match k with
+        | [] => (s, ORet VUnit)
+        | IPop n :: k' => run fu first (firstn n en) k' s
+        | ILoop body :: k' => run fu first en (block body en (ILoop body :: k')) s
+        | IStmt st :: k' =>
+            if negb first && has_site st then (s, OPark (DLoc en k))
+            else
+              match st with
+              | SDefine _ x e =>
+                  match eval en e s with
+                  | Some (s', v) => run fu false (en ++ [(x, v)]) k' s'
+                  | None => (s, OStuck)
+                  end
+              | SAssign _ (LVar x) e =>
+                  match eval en e s with
+                  | Some (s', v) =>
+                      match update x v en with
+                      | Some en' => run fu false en' k' s'
+                      | None => (s', OStuck)
+                      end
+                  | None => (s, OStuck)
+                  end
+              | SAssign _ (LField x f) e =>
+                  match eval en e s with
+                  | Some (s', v) =>
+                      match set_field x f v en with
+                      | Some en' => run fu false en' k' s'
+                      | None => (s', OStuck)
+                      end
+                  | None => (s, OStuck)
+                  end
+              | SClose _ e =>
+                  match eval en e s with
+                  | Some (s', VChan c) =>
+                      match m_close M c s' with
+                      | Some (s'', true) => run fu false en k' s''
+                      | Some (s'', false) => (s'', OPanic)
+                      | None => (s', OStuck)
+                      end
+                  | _ => (s, OStuck)
+                  end
+              | SExpr _ e =>
+                  match eval en e s with
+                  | Some (s', _) => run fu false en k' s'
+                  | None => (s, OStuck)
+                  end
+              | SIf _ c th el =>
+                  match eval en c s with
+                  | Some (s', VBool b) => run fu false en (block (if b then th else el) en k') s'
+                  | _ => (s, OStuck)
+                  end
+              | SLoop body => run fu false en (ILoop body :: k') s
+              | SReturn _ e =>
+                  match eval en e s with
+                  | Some (s', v) => (s', ORet v)
+                  | None => (s, OStuck)
+                  end
+              | SOther _ _ => (s, OStuck)
+              end
+        end
+    end.
+
+  Definition FUEL : nat := 64.
+
+  (* one micro-step of a parked call *)
+  Definition dstep (l : dloc) (s : Sh) : Sh * outcome := run FUEL true (d_env l) (d_k l) s.
+
+  (* entering function f with arguments args: run the local prefix up to the first site *)
+  Fixpoint bind (ps : list string) (args : list value) : env :=
+    match ps, args with
+    | p :: ps', a :: args' => (p, a) :: bind ps' args'
+    | _, _ => []
+    end.
+
+  Definition dbegin (f : func) (args : list value) (s : Sh) : outcome :=
+    snd (run FUEL false (bind (f_params f) args) (map IStmt (f_body f)) s).
+
+  Definition dsite (l : dloc) : nat :=
+    match d_k l with
+    | IStmt st :: _ => match stmt_site st with Some n => n | None => 0 end
+    | _ => 0
+    end.
+End Denote.
+
+(* reduction tactics unfold [run] only when the fuel and the continuation are constructors: a
+   continuation that depends on an undecided condition stays folded *)
+Arguments run Sh M !fuel first en !k s.
